@@ -171,7 +171,12 @@ def cli(x, p):
     label = x.bool('label')
     code = x.choice('code', [None, TRICKY])
     src = cart_text(tag, label=label, code=code)
-    fs = clikit.MemFS(x, {'/w/in.p8': src})
+    files = {'/w/in.p8': src}
+    # what is at the output path before: nothing, or another cart (with a
+    # label of its own) that is simply replaced
+    if x.bool('output_exists'):
+        files['/w/in_fmt.p8'] = cart_text(55, label=True)
+    fs = clikit.MemFS(x, files)
     rc, exc = clikit.run_main(['writep8', '/w/in.p8'])
     x.check('writep8 succeeds', And(exc is None, rc == 0),
             info=repr((rc, exc))[:120])
